@@ -33,6 +33,11 @@ GRID_CONFIGS = [
     ('ShocSimple with a plain (j,i) variable first', 'ShocSimple', {'bounds': True, 'first_var': ('botz', ('j', 'i'), {'long_name': 'depth'})}),
     ('ShocStandard', 'ShocStandard', {}),
     ('ShocStandard plain variables', 'ShocStandard', {'as_coords': False}),
+    # no stored bounds: the corners are made from the centres (spec function _synth_spec)
+    ('CFGrid2D corners made from the centres', 'CFGrid2D', {}),
+    ('CFGrid2D corners made from the centres, longitude stored (x, y)', 'CFGrid2D', {'lon_transposed': True}),
+    ('ShocSimple corners made from the centres', 'ShocSimple', {}),
+    ('ShocStandard, node longitude stored (i, j)', 'ShocStandard', {'x_transposed': ('node',)}),
 ]
 
 
@@ -47,6 +52,7 @@ MESH_CONFIGS = [
     ('transposed, float NaN, max 4', {'maxn': 4, 'fill': 'nan', 'start_index': 0, 'transposed': True}),
     ('node coordinates held as xarray coordinates', {'maxn': 4, 'fill': 'int_fill', 'start_index': 0, 'coords_as': 'coords'}),
     ('mixed up to hexagons, with edges', {'maxn': 6, 'fill': 'int_fill', 'start_index': 0, 'edges': 'both'}),
+    ('latitude listed before longitude in node_coordinates (CF attributes say so)', {'maxn': 4, 'fill': 'int_fill', 'start_index': 0, 'latitude_first': True, 'face_coords': True}),
 ]
 
 
@@ -54,11 +60,15 @@ def scenarios(tier):
     out = []
     for gi, g in enumerate(GRID_CONFIGS):
         out.append({'name': f'polygons[{g[0]}]', 'fn': 'scn_grid_polygons', 'kwargs': {'gi': gi}})
-        out.append({'name': f'validity[{g[0]}]', 'fn': 'scn_validity', 'kwargs': {'gi': gi}})
+        if 'made from the centres' not in g[0]:      # validity handling sits on top of _make_polygons, whatever the corners come from
+            out.append({'name': f'validity[{g[0]}]', 'fn': 'scn_validity', 'kwargs': {'gi': gi}})
     for mi, m in enumerate(MESH_CONFIGS):
         out.append({'name': f'polygons[UGRID {m[0]}]', 'fn': 'scn_mesh_polygons', 'kwargs': {'mi': mi}})
     for bd in ('yx4', 'xy4', 'yx3', '4yx'):
         out.append({'name': f'CFGrid2D stored bounds are used only when they are on the grid of the coordinate[bounds dims {bd}]', 'fn': 'scn_bounds_lookup', 'kwargs': {'bd': bd}})
+    for lt, ac in ((False, True), (True, True), (True, False)):
+        out.append({'name': f'CFGrid2D corners made from the centres[longitude stored (x, y)={lt}, coordinates={ac}]', 'fn': 'scn_synth_corners',
+                    'kwargs': {'lon_transposed': lt, 'as_coords': ac}})
     for gi, g in enumerate(GRID_CONFIGS):
         if g[1] in ('CFGrid1D', 'CFGrid2D', 'ShocSimple'):
             out.append({'name': f'extent covers every cell[{g[0]}]', 'fn': 'scn_extent_grid', 'kwargs': {'gi': gi}})
@@ -125,12 +135,16 @@ def _expected_corners(c, it, ds, conv_name, kw, j, i):
             lo = lambda k: mids(lon, nx, i + k)
             la = lambda k: mids(lat, ny, j + k)
         return [(lo(0), la(0)), (lo(1), la(0)), (lo(1), la(1)), (lo(0), la(1))]
+    if conv_name in ('CFGrid2D', 'ShocSimple') and not kw.get('bounds'):
+        lo, la = _synth_spec(ds, ds.info['lon'], bool(kw.get('lon_transposed'))), _synth_spec(ds, ds.info['lat'], False)
+        return [(lo(j, i, k), la(j, i, k)) for k in range(4)]
     if conv_name in ('CFGrid2D', 'ShocSimple'):
         lb, nb = V['lat_bnds'].arr, V['lon_bnds'].arr
         return [(nb.fn((j, i, k)), lb.fn((j, i, k))) for k in range(4)]
     if conv_name == 'ShocStandard':
         gx, gy = V['x_grid'].arr, V['y_grid'].arr
-        return [(gx.fn((j + dj, i + di)), gy.fn((j + dj, i + di))) for dj, di in ((0, 0), (0, 1), (1, 1), (1, 0))]
+        xt = 'node' in kw.get('x_transposed', ())
+        return [(gx.fn((i + di, j + dj) if xt else (j + dj, i + di)), gy.fn((j + dj, i + di))) for dj, di in ((0, 0), (0, 1), (1, 1), (1, 0))]
     raise ValueError(conv_name)
 
 
@@ -275,6 +289,61 @@ def scn_bounds_lookup(c, bd):
         else:
             c.check(f'{coord}: stored bounds on other dimensions are not used', b.variable.arr is not stored.arr)
             c.check(f'{coord}: ... and a warning says so', warned)
+
+
+def _synth_spec(ds, vname, swapped):
+    """Spec function for the corners CFGrid2DTopology makes from the centres, stated over the GRID (cell (j, i) of the (y, x) grid, whichever
+    way the coordinate variable stores its two dimensions):
+      usable(j, i) = centre (j, i) is not NaN and is not enclosed by NaN centres on both sides along y or along x;
+      node(p, q)   = mean of the usable centres among (p-1..p, q-1..q) (NaN when there is none);
+      corners of cell (j, i) = node(j, i), node(j, i+1), node(j+1, i+1), node(j+1, i), all NaN when one of them or the centre itself is NaN.
+    -> corner(j, i, k)"""
+    from pyvc.lib.floats import NAN, _reduce_vals
+    ny, nx = ds.info['shape']['face']
+    arr = ds._vars[vname].arr
+
+    def inside(p, q):
+        return mk_bool(z3.And(zint(p) >= 0, zint(p) < zint(ny), zint(q) >= 0, zint(q) < zint(nx)))
+
+    def centre(p, q):
+        return to_sfloat(arr.fn((q, p) if swapped else (p, q)))
+
+    def isnan(p, q):        # outside the grid: not NaN (the padding used to find enclosed cells is False)
+        return s_and(inside(p, q), centre(p, q).is_nan())
+
+    def usable(p, q):       # -> the centre, or NaN
+        enclosed = s_or(s_and(isnan(p - 1, q), isnan(p + 1, q)), s_and(isnan(p, q - 1), isnan(p, q + 1)))
+        v = centre(p, q)
+        ok = s_and(inside(p, q), s_not(enclosed))
+        return SFloat(s_ite(ok, v.kind, NAN), v.val)
+
+    def node(p, q):
+        return _reduce_vals('mean', [usable(p - 1, q - 1), usable(p - 1, q), usable(p, q - 1), usable(p, q)])
+
+    def corner(j, i, k):
+        nodes = [node(j, i), node(j, i + 1), node(j + 1, i + 1), node(j + 1, i)]
+        dead = s_or(centre(j, i).is_nan(), *[n_.is_nan() for n_ in nodes])
+        return SFloat(s_ite(dead, NAN, nodes[k].kind), nodes[k].val)
+    return corner
+
+
+def scn_synth_corners(c, lon_transposed=False, as_coords=True):
+    """CFGrid2DTopology._get_or_make_bounds without stored bounds, against the spec function _synth_spec."""
+    it = new_interp()
+    ds, conv = inputs.make_convention(it, c, 'CFGrid2D', lon_transposed=lon_transposed, as_coords=as_coords)
+    ny, nx = ds.info['shape']['face']
+    topo = expect_ok(c, 'topology', lambda: it.getattr(conv, 'topology'))
+    j, i = _cell(c, ny, nx)
+    for coord, vname, swapped in (('longitude', 'lon', lon_transposed), ('latitude', 'lat', False)):
+        b = expect_ok(c, f'_get_or_make_bounds({coord})', lambda: it.call(it.getattr(topo, '_get_or_make_bounds'), [it.getattr(topo, coord)], {}))
+        c.check(f'{coord}: the corners are on the grid: (y, x, 4)', tuple(b.variable.dims[:2]) == ('j', 'i') and len(b.variable.dims) == 3
+                and s_eq(b.variable.arr.shape[0], ny) and s_eq(b.variable.arr.shape[1], nx) and b.variable.arr.shape[2] == 4)
+        if len(b.variable.dims) != 3:
+            raise PathEnd()
+        corner = _synth_spec(ds, vname, swapped)
+        for k in range(4):
+            c.check(f'{coord}: corner {k} of cell (j, i) is the mean of the usable centres around that node of the (y, x) grid',
+                    _same(b.variable.arr.fn((j, i, k)), corner(j, i, k)))
 
 
 def _within(c, b, x, y, complete, what):
